@@ -488,14 +488,16 @@ impl Exec {
                         tx.try_send(InterruptSignal).expect("pre signal");
                         self.runs[r].signalled = true;
                     }
-                    self.runs[r].tx = Some(tx);
+                    if !(cfg.pre_signal && cfg.tx_drop) {
+                        self.runs[r].tx = Some(tx);
+                    }
                     Some(rx)
                 } else {
                     None
                 };
                 self.ev(json!({"ev":"call","run":run,"api":cfg.api,"mut":cfg.mutv,"control":cfg.control,
                     "with":cfg.with,"order":cfg.order,"limit":cfg.limit,"strategy":cfg.strategy,"k":cfg.k,
-                    "include":cfg.include,"pre_signal":cfg.pre_signal && cfg.has_channel()}));
+                    "include":cfg.include,"pre_signal":cfg.pre_signal && cfg.has_channel(),"tx_drop":cfg.tx_drop}));
                 self.w.borrow_mut().cur_run = run;
                 if cfg.is_stream() {
                     let g = self.g;
@@ -523,13 +525,20 @@ impl Exec {
                 }
                 true
             }
-            Step::Open { run, f, ok, defer } => {
+            Step::Open { run, f, ok, defer, signal } => {
                 let r = run - 1;
                 if r >= self.runs.len() || self.runs[r].status != Status::Live {
                     return false;
                 }
-                if !gate_open(&self.w, run, f, ok) {
+                let sig_tx = if signal { self.runs[r].tx.clone() } else { None };
+                if signal && sig_tx.is_none() {
                     return false;
+                }
+                if !gate_open(&self.w, run, f, ok, sig_tx) {
+                    return false;
+                }
+                if signal {
+                    self.runs[r].signalled = true;
                 }
                 if !ok {
                     self.runs[r].fails_used += 1;
@@ -549,6 +558,9 @@ impl Exec {
                         let sent = tx.try_send(InterruptSignal).is_ok();
                         self.runs[r].signalled = true;
                         self.ev(json!({"ev":"signal","run":run,"sent":sent}));
+                        if self.runs[r].cfg.tx_drop {
+                            self.runs[r].tx = None;
+                        }
                         if !defer {
                             self.settle();
                         }
@@ -767,7 +779,13 @@ impl Exec {
                 }
                 Status::Live => {
                     if run.cfg.is_stream() {
-                        if !run.stream_dropped && (run.may_poll || run.flag.get()) {
+                        let pollable = !run.stream_dropped && (run.may_poll || run.flag.get());
+                        let style_ok = match x.stream_style {
+                            1 => run.held.is_empty(),
+                            2 => run.may_poll || run.held.is_empty(),
+                            _ => true,
+                        };
+                        if pollable && style_ok {
                             out.push(Step::Poll { run: id });
                         }
                         if x.spurious_polls && !run.stream_dropped && !(run.may_poll || run.flag.get()) {
@@ -779,15 +797,19 @@ impl Exec {
                     } else {
                         let openable = world.openable(id);
                         let many = openable.len() > 1;
+                        let can_signal = x.signal_inside && x.signals && run.tx.is_some() && !run.signalled;
                         for f in openable {
-                            out.push(Step::Open { run: id, f, ok: true, defer: false });
+                            out.push(Step::Open { run: id, f, ok: true, defer: false, signal: false });
                             if run.cfg.is_try() && run.fails_used < x.max_fail {
-                                out.push(Step::Open { run: id, f, ok: false, defer: false });
+                                out.push(Step::Open { run: id, f, ok: false, defer: false, signal: false });
+                            }
+                            if can_signal {
+                                out.push(Step::Open { run: id, f, ok: true, defer: false, signal: true });
                             }
                             if x.defer && many {
-                                out.push(Step::Open { run: id, f, ok: true, defer: true });
+                                out.push(Step::Open { run: id, f, ok: true, defer: true, signal: false });
                                 if run.cfg.is_try() && run.fails_used < x.max_fail {
-                                    out.push(Step::Open { run: id, f, ok: false, defer: true });
+                                    out.push(Step::Open { run: id, f, ok: false, defer: true, signal: false });
                                 }
                             }
                         }
@@ -805,8 +827,12 @@ impl Exec {
                 }
                 _ => {}
             }
-            for &f in run.held.keys() {
-                out.push(Step::Drop { run: id, f });
+            // batching consumer: keeps everything it is handed while the stream still yields
+            let hold = x.stream_style == 2 && run.status == Status::Live && !run.stream_dropped && run.may_poll;
+            if !hold {
+                for &f in run.held.keys() {
+                    out.push(Step::Drop { run: id, f });
+                }
             }
         }
         if let Some(r) = next_call {
@@ -857,6 +883,13 @@ pub struct ExploreOpts {
     pub drop_stream: bool,
     pub spurious_polls: bool,
     pub defer: bool,
+    /// a completing function may send the interrupt itself (signal arrives in the middle of a poll)
+    pub signal_inside: bool,
+    /// random walks prefer failing completions
+    pub fail_bias: bool,
+    /// stream consumer: 0 = any interleaving; 1 = sequential (drop each FnRef before polling again);
+    /// 2 = batching (poll until Pending, then drop everything held, then poll again)
+    pub stream_style: u8,
 }
 
 impl Default for ExploreOpts {
@@ -869,6 +902,9 @@ impl Default for ExploreOpts {
             drop_stream: false,
             spurious_polls: false,
             defer: false,
+            signal_inside: false,
+            fail_bias: false,
+            stream_style: 0,
         }
     }
 }
